@@ -18,7 +18,7 @@ from .interp import (Ctx, Frame, PyRaise, _Return, _Break, _Continue, PathEnd, I
 from .modules import Repo, node_hash
 from .values import (S, VOpt, VQty, VTime, VDelta, VEnum, SEnum, VRec, VRef, HObj, HList, HDict,
                      HSet, SymSeq, SymSet, SymMap, FuncRef, ClassRef, ModRef, ExtRef,
-                     BoundBuiltin, Opaque, Unsupported, fresh_name, reset_fresh)
+                     BoundBuiltin, Opaque, Unsupported, fresh_name, reset_fresh, GhostSeq)
 
 
 class FunctionReport:
@@ -123,10 +123,13 @@ class Engine:
 
     # ------------------------------------------------------------------ hooks used by exec/models
     def contract_for_call(self, it, target):
-        c = specmod.CONTRACTS.get(target)
+        cur = self.current
+        key = target
+        if cur is not None and target in getattr(cur, "use", {}):
+            key = cur.use[target]
+        c = specmod.CONTRACTS.get(key)
         if c is None:
             return None
-        cur = self.current
         if cur is not None:
             if target == cur.target:
                 return None
@@ -387,12 +390,25 @@ class Engine:
                 out[name] = {"__error__": str(e)}
         ghost = {}
         for name, val in ctx.ghost.items():
+            if isinstance(val, GhostSeq):
+                continue
             try:
                 ghost[name] = self.val_json(ctx, None, val, model)
             except Exception:  # pylint: disable=broad-except
                 pass
         if ghost:
             out["__ghost__"] = ghost
+        st = getattr(ctx, "state_for_model", None)
+        if st:
+            state = {}
+            for name, val in st.items():
+                if isinstance(val, (FuncRef, ClassRef, ModRef, ExtRef, GhostSeq)):
+                    continue
+                try:
+                    state[name] = self.val_json(ctx, None, val, model)
+                except Exception:  # pylint: disable=broad-except
+                    pass
+            out["__state__"] = state
         return out
 
     def zval(self, model, z):
@@ -547,7 +563,7 @@ class Engine:
             sfr = self.spec_frame(fr)
             for nm, expr in invs.items():
                 g = self.eval_clause(it, expr, sfr)
-                ctx.check(f"{fname}::loop[{key}].{kind}.{nm}", g, kind="loop_" + kind)
+                ctx.check(f"{fname}::loop[{key}].{kind}.{nm}", g, kind="loop_" + kind, state=dict(fr.locals))
 
         check_invs("init")
         # havoc everything the body may assign
@@ -603,6 +619,7 @@ class Engine:
         cm = self.contract_module(self.current)
         sfr = Frame(cm, dict(fr.locals), closure=None)
         sfr.is_spec_root = True
+        sfr.locals.update(self.ctx_now.ghost)
         return sfr
 
     def contract_module(self, c):
@@ -676,9 +693,12 @@ class Engine:
                         continue
                     hfr = Frame(cm, dict(sfr.locals), closure=None)
                     hfr.is_spec_root = True
-                    cfr = self.caller_spec_frame
-                    for gname, gexpr in hint.items():
-                        hfr.locals[gname] = it.eval(self.parse_clause(gexpr), cfr) if isinstance(gexpr, str) else gexpr
+                    try:
+                        for gname, gexpr in hint.items():
+                            # hint expressions range over the callee's parameters and result
+                            hfr.locals[gname] = it.eval(self.parse_clause(gexpr), sfr)
+                    except (PyRaise, Infeasible, NeedFork):
+                        continue
                     g = self.eval_clause(it, expr, hfr)
                     ctx.assume(zbool(g) if not isinstance(g, bool) else g)
         finally:
@@ -706,7 +726,7 @@ class Engine:
 
     # ------------------------------------------------------------------ verifying one function
     def verify_function(self, c, regimes=None) -> FunctionReport:
-        rep = FunctionReport(c.target)
+        rep = FunctionReport(getattr(c, "key", c.target))
         t_start = time.time()
         self.current = c
         self.current_report = rep
@@ -733,6 +753,7 @@ class Engine:
             ctx.function = c.target.split(":")[-1]
             it = Interp(self, ctx)
             ctx.it = it
+            self.ctx_now = ctx
             try:
                 self.run_path(it, c, mi, clsnode, fn, rep, regimes)
             except Infeasible:
@@ -795,6 +816,8 @@ class Engine:
         sfr = Frame(cm, dict(fr.locals), closure=None)
         sfr.is_spec_root = True
         sfr.locals.update(ctx.ghost)
+        for gname, gs in c.ghost_seqs.items():
+            self.define_ghost_seq(it, sfr, gname, gs)
         for nm, expr in c.requires.items():
             g = self.eval_clause(it, expr, sfr)
             ctx.assume(zbool(g) if not isinstance(g, bool) else g)
@@ -858,6 +881,35 @@ class Engine:
                     g = self.eval_clause(it, expr, post)
                     ctx.check(f"{short}::ensures_on_raise.{nm}", g)
 
+    def define_ghost_seq(self, it, sfr, gname, gs):
+        """G(0) = init; for 0 <= k < len(over): G(k+1) = step[prev := G(k), elem := over[k], k]."""
+        ctx = it.ctx
+        over = it.eval(self.parse_clause(gs["over"]), sfr)
+        if not isinstance(over, SymSeq):
+            raise Unsupported("ghost sequence over a non-symbolic sequence")
+        shape = gs["shape"]
+        arrays = self.make_arrays(ctx, shape, "ghostseq_" + gname, z3.IntSort())
+        g = GhostSeq(gname, ArrShape(self, shape, ctx), arrays)
+        ctx.ghost[gname] = g
+        sfr.locals[gname] = g
+        init = it.eval(self.parse_clause(gs["init"]), sfr)
+        e0 = it.truth(it.equal(g.at(z3.IntVal(0)), init))
+        ctx.assume(zbool(e0) if not isinstance(e0, bool) else e0)
+        k = z3.Int(fresh_name("gk"))
+        rng = z3.And(0 <= k, k < over.length)
+        lfr = Frame(sfr.module, {"prev": g.at(k), "elem": over.get(k), "k": S(k, "int")}, closure=sfr)
+
+        def thunk():
+            nxt = it.eval(self.parse_clause(gs["step"]), lfr)
+            return it.truth(it.equal(g.at(k + 1), nxt))
+        try:
+            body = it.try_nofork(rng, thunk)
+        except Infeasible:
+            return
+        bz = zbool(body) if not isinstance(body, bool) else z3.BoolVal(body)
+        pats = [z3.Select(a, k + 1) for a in leaves_of(arrays)][:1]
+        ctx.assume(z3.ForAll([k], z3.Implies(rng, bz), patterns=pats))
+
     def check_pure(self, it, c, short, old_heap):
         """Frame condition of a pure function: no pre-existing heap object was modified."""
         ctx = it.ctx
@@ -875,6 +927,11 @@ class Engine:
                 if list(h0.items) != list(h1.items):
                     same = False
         ctx.check(f"{short}::frame.pure", same, kind="frame")
+
+
+def leaves_of(arrays):
+    from .folds import leaves
+    return leaves(arrays)
 
 
 class ArrShape:
